@@ -37,6 +37,7 @@ ENTRY = {
 }
 STAT_FIELDS = {"ST_SIZE": "size", "ST_MTIME": "mtime", "ST_CTIME": "ctime",
                "st_size": "size", "st_mtime": "mtime", "st_ctime": "ctime"}
+STAT_GETTERS = {"os.path.getsize": "size", "os.path.getmtime": "mtime", "os.path.getctime": "ctime"}
 TIMESTAMP_COLS = {"last_uploaded", "last_checked"}
 
 
@@ -67,6 +68,18 @@ def parse_schema(text):
     return tables
 
 
+def rowid_aliases(text):
+    """{table: column} for the columns declared INTEGER PRIMARY KEY (SQLite: alias of the rowid, the value a
+    successful INSERT leaves in cursor.lastrowid)."""
+    text = "\n".join(ln.split("--")[0] for ln in text.splitlines())
+    out = {}
+    for m in re.finditer(r"CREATE\s+TABLE\s+(\w+)\s*\((.*?)\)\s*;", text, re.S | re.I):
+        for c in split_top(m.group(2)):
+            if re.match(r"^\w+\s+INTEGER\s+PRIMARY\s+KEY\b", c.strip(), re.I):
+                out[m.group(1)] = c.split()[0]
+    return out
+
+
 def unq(col):
     return col.strip().split(".")[-1]
 
@@ -82,6 +95,7 @@ class Sql:
         self.ph = []             # column of each '?' in order (unqualified)
         self.where = []           # columns compared with a placeholder
         self.joins = []           # other conditions
+        self.conflict = None      # INSERT OR <x> / REPLACE
         nq = t.count("?")
 
         def where_cols(w):
@@ -107,6 +121,8 @@ class Sql:
             m = re.match(r"^(?:INSERT(?:\s+OR\s+\w+)?|REPLACE)\s+INTO\s+(\w+)\s*(?:\((.*?)\))?\s*VALUES\s*\((.*?)\)$", t, re.I)
             if m:
                 self.kind = "INSERT"
+                mc = re.match(r"^INSERT\s+OR\s+(\w+)", t, re.I)
+                self.conflict = mc.group(1).upper() if mc else ("REPLACE" if t.upper().startswith("REPLACE") else None)
                 self.tables = [m.group(1)]
                 vals = [v.strip() for v in m.group(3).split(",")]
                 if m.group(2):
@@ -155,13 +171,18 @@ class Sql:
 class Roles:
     """Meaning of values in backupdb.py by provenance.  A role is a tuple:
     ('stat', field) ('db', column, execute-call) ('row', execute-call) ('statres', role) ('now',) ('path',)
-    ('rawpath',) ('dirhash',) ('rawdirhash',) ('sem', name) ('const', value)."""
+    ('rawpath',) ('dirhash',) ('rawdirhash',) ('sem', name[, parts]) ('const', value); a ('stat', field, os.stat call,
+    function) remembers where the file was examined, ('sem', name, parts) the roles that were merged, and
+    ('bad', message, function, node) is a value that provably does not mean what its use needs (e.g. cursor.lastrowid
+    read where the governing INSERT may not have inserted a row)."""
 
     def __init__(self, idx):
         self.idx = idx
         self.folder = get_folder(idx)
         self.mod = idx.module("allmydata." + BDB)
         self.schema = parse_schema(self.folder.module_const(BDB, "SCHEMA_v2"))
+        self.rowid = rowid_aliases(self.folder.module_const(BDB, "SCHEMA_v2"))
+        self._attr = {}
         self._fn = {}
         self._sql = {}
         self._param = {}
@@ -220,6 +241,68 @@ class Roles:
             raise AnalysisError("cannot tell which execute() feeds the fetch at %s" % fn.loc(node.ast))
         return found[0]
 
+    def last_executes(self, fn, node):
+        """[(execute call or None, failed)] - the nearest execute() on every path back from `node`, exceptional edges
+        included; failed = the path leaves that execute by its exception edge (the statement did not complete)."""
+        cfg = fn.cfg()
+        seen, found = set(), []
+        work = list(cfg.predecessors(node))
+        while work:
+            (n, lab) = work.pop()
+            if (n.id, lab == "exc") in seen:
+                continue
+            seen.add((n.id, lab == "exc"))
+            ex = calls_at(n, "execute")
+            if ex:
+                found.append((ex[-1], lab == "exc"))
+                continue
+            if n.kind == "entry":
+                found.append((None, False))
+                continue
+            work.extend(cfg.predecessors(n))
+        self.states += len(seen)
+        return found
+
+    def lastrowid_role(self, fn, node, e):
+        """cursor.lastrowid identifies a row only directly after an INSERT that is known to have inserted one: SQLite
+        leaves the value of the connection's previous successful insert in place when the statement raised or when
+        INSERT OR IGNORE skipped a duplicate."""
+        if isinstance(e.value, ast.Call) and call_tail(e.value) == "execute":
+            found = [(e.value, False)]
+        else:
+            found = self.last_executes(fn, node)
+        if not found:
+            return None
+        rs = []
+        for (ex, failed) in found:
+            if ex is None:
+                return ("bad", "%s is read on a path on which no statement was executed" % src(fn, e), fn, e)
+            sql = self.sql_of(fn, ex)
+            if failed:
+                return ("bad", "%s is read after %r raised (the handler continues): it still holds the rowid of the "
+                        "last successful insert, which belongs to another row" % (src(fn, e), sql.text), fn, e)
+            if sql.kind != "INSERT":
+                return ("bad", "%s is read after %r, which inserts nothing" % (src(fn, e), sql.text), fn, e)
+            if sql.conflict == "IGNORE":
+                return ("bad", "%s is read after %r: when the row already exists nothing is inserted and lastrowid still "
+                        "holds the rowid of the last successful insert, which belongs to another row" % (
+                            src(fn, e), sql.text), fn, e)
+            col = self.rowid.get(sql.tables[0])
+            if col is None:
+                return None
+            rs.append(("db", col, ex, fn))
+        return self.merge(rs)
+
+    @staticmethod
+    def parts(r):
+        """The unmerged roles a role stands for."""
+        if r is not None and r[0] == "sem" and len(r) > 2:
+            out = []
+            for x in r[2]:
+                out.extend(Roles.parts(x))
+            return out
+        return [r]
+
     # -- semantic name of a role
     @staticmethod
     def sem(r):
@@ -263,11 +346,13 @@ class Roles:
                     roles.append(self.role(fn, dn, v, depth + 1) if v is not None else None)
             return self.merge(roles)
         if isinstance(e, ast.Attribute):
+            if e.attr == "lastrowid":
+                return self.lastrowid_role(fn, node, e)
             if isinstance(e.value, ast.Name) and e.value.id == "self" and fn.cls is not None:
                 return self.attr_role(fn.cls, e.attr, depth + 1)
             base = R(e.value)
             if base and base[0] == "statres" and e.attr in STAT_FIELDS:
-                return ("stat", STAT_FIELDS[e.attr]) if self.sem(base[1]) == "path" else None
+                return ("stat", STAT_FIELDS[e.attr], base[2], base[3]) if self.sem(base[1]) == "path" else None
             return None
         if isinstance(e, ast.Subscript):
             base = R(e.value)
@@ -282,12 +367,14 @@ class Roles:
             if base[0] == "statres":
                 nm = e.slice.attr if isinstance(e.slice, ast.Attribute) else (e.slice.id if isinstance(e.slice, ast.Name) else None)
                 if nm in STAT_FIELDS:
-                    return ("stat", STAT_FIELDS[nm]) if self.sem(base[1]) == "path" else None
+                    return ("stat", STAT_FIELDS[nm], base[2], base[3]) if self.sem(base[1]) == "path" else None
             return None
         if isinstance(e, ast.Call):
             tail, name = call_tail(e), call_name(e)
-            if name == "os.stat" and len(e.args) == 1:
-                return ("statres", R(e.args[0]))
+            if name in ("os.stat", "os.lstat") and len(e.args) == 1:
+                return ("statres", R(e.args[0]), e, fn)
+            if name in STAT_GETTERS and len(e.args) == 1:
+                return ("stat", STAT_GETTERS[name], e, fn) if self.sem(R(e.args[0])) == "path" else None
             if name == "time.time" and not e.args:
                 return ("now",)
             if tail == "fetchone":
@@ -313,13 +400,16 @@ class Roles:
         roles = [r for r in roles if not (r is not None and r[0] == "const" and r[1] is None)]
         if not roles:
             return ("const", None)
+        for r in roles:
+            if r is not None and r[0] == "bad":
+                return r
         if any(r is None for r in roles):
             return None
         if all(r == roles[0] for r in roles):
             return roles[0]
         sems = {self.sem(r) for r in roles}
         if len(sems) == 1 and None not in sems:
-            return ("sem", sems.pop())
+            return ("sem", sems.pop(), tuple(roles))
         if None not in sems:
             return ("conflict", tuple(sorted(sems)))
         return None
@@ -334,15 +424,38 @@ class Roles:
         return self._ret[key]
 
     def attr_role(self, ci, attr, depth=0):
-        init = ci.lookup("__init__")
-        if init is None:
+        """Meaning of self.<attr> in a method of `ci`: every store to the attribute - in the constructor, in any other
+        method of the class (flow-insensitively: a method that refreshes the attribute changes what later readers see)
+        and, as an unknown, any store through another name in backupdb.py / tahoe_backup.py."""
+        key = (ci.qual, attr)
+        if key in self._attr:
+            return self._attr[key]
+        self._attr[key] = None          # cycle guard
+        if ci.lookup("__init__") is None:
             return None
         rs = []
-        for n in init.cfg().nodes:
-            if n.kind == "stmt" and ("self." + attr) in node_stores(n):
-                v = assign_value(n, "self." + attr)
-                rs.append(self.role(init, n, v, depth + 1) if v is not None else None)
-        return self.merge(rs) if rs else None
+        family = {c.qual for c in ci.mro()} | {c.qual for c in self.idx.subclasses(ci)}
+        for m in self.idx.funcs.values():
+            if m.cls is None or m.cls.qual not in family:
+                continue
+            for n in m.cfg().nodes:
+                if n.kind in ("stmt", "iter", "with") and ("self." + attr) in node_stores(n):
+                    v = assign_value(n, "self." + attr) if n.kind == "stmt" else None
+                    rs.append(self.role(m, n, v, depth + 1) if v is not None else None)
+        for modname in (BDB, TB):
+            mod = self.idx.module("allmydata." + modname)
+            for f in self.idx.funcs.values():
+                if f.module is not mod:
+                    continue
+                for x in func_own_nodes(f):
+                    if isinstance(x, ast.Attribute) and isinstance(x.ctx, (ast.Store, ast.Del)) and x.attr == attr \
+                            and not (isinstance(x.value, ast.Name) and x.value.id == "self"):
+                        rs.append(None)
+            for x in ast.walk(mod.tree):
+                if isinstance(x, ast.Call) and call_name(x) == "setattr":
+                    rs.append(None)
+        self._attr[key] = self.merge(rs) if rs else None
+        return self._attr[key]
 
     def call_sites(self, fn):
         """[(caller, call)] inside backupdb.py of a method (by name) or of a class constructor."""
@@ -565,6 +678,10 @@ def run(ctx: Context):
                         if ro is not None and ro[0] == "conflict":
                             r.violation(fn, fn.loc(c), "%r: the value %s bound to column %r means different things at "
                                         "different call sites: %s" % (sql.text, src(fn, b), col, " / ".join(ro[1])))
+                            continue
+                        if ro is not None and ro[0] == "bad":
+                            r.violation(ro[2], ro[2].loc(ro[3]), "%r: the value %s bound to column %r is not the %s of the "
+                                        "row it is meant to identify: %s" % (sql.text, src(fn, b), col, col, ro[1]))
                             continue
                         if s is None:
                             raise AnalysisError("cannot determine the meaning of value %s bound to column %s in %r (%s)" % (
